@@ -273,7 +273,31 @@ def rule_limits(ctx: Ctx, rep: Report) -> None:
     okd = bool(dec) and ctx.fold(dec[0].value, oc.module) == 50 and any(t == "signature" and p for t, p in g.facts_at_ast(dec[0].value))
     rep.ob(rule, "tapscript:budget_per_sigop", okd, oc.where(), "50 per non-empty signature")
     rep.ob(rule, "tapscript:budget_exhausted", has_bound(refusal_constraints(ctx, oc), "<", 0, subject="budget") is not None, oc.where(), "refuses budget < 0")
-    # initial stack element sizes
+    initial_stack_limits(ctx, rep, rule)
+
+
+# ---------------------------------------------------------------------------
+def _emptiness_subject(txt: str) -> str | None:
+    """`x` if the fact text is a test of x being non-empty: `x`, `len(x) > 0`, `len(x) != 0`, `len(x) >= 1`, `x != b''`."""
+    t = str(txt).replace(" ", "")
+    try:
+        e = ast.parse(t, mode="eval").body
+    except SyntaxError:
+        return None
+    if isinstance(e, ast.Name):
+        return e.id
+    if isinstance(e, ast.Compare) and len(e.ops) == 1:
+        l, op, r = e.left, e.ops[0], e.comparators[0]
+        if isinstance(l, ast.Call) and isinstance(l.func, ast.Name) and l.func.id == "len" and isinstance(l.args[0], ast.Name) and isinstance(r, ast.Constant):
+            if (isinstance(op, (ast.Gt, ast.NotEq)) and r.value == 0) or (isinstance(op, ast.GtE) and r.value == 1):
+                return l.args[0].id
+        if isinstance(l, ast.Name) and isinstance(op, ast.NotEq) and isinstance(r, ast.Constant) and r.value == b"":
+            return l.id
+    return None
+
+
+def initial_stack_limits(ctx: Ctx, rep: Report, rule: str) -> None:
+    """The 520-byte limit on the initial stack of a p2wsh / tapscript spend -- and not on the p2wsh witness script, its last element."""
     for q, what in ((f"{ENG}._verify_witness_v0", "p2wsh initial stack"), (f"{TAP}.verify_script_path_vc0", "tapscript initial stack")):
         fi = ctx.func(q)
         its: list[str] = []
@@ -292,6 +316,139 @@ def rule_limits(ctx: Ctx, rep: Report) -> None:
             rep.ob(rule, f"{fi.name}:witness_script_not_an_element", okx, fi.where(), "the 520-byte limit is on stack[:-1]: the witness script itself may be longer" if okx else
                    f"the 520-byte element limit is applied to {its}: a witness script of 521..10000 bytes, which BIP141 allows, is refused")
         rep.ob(rule, f"{fi.name}:initial_stack_520", ok, fi.where(), f"{what}: elements over 520 bytes refused")
+
+
+def sigops_charge(ctx: Ctx, rep: Report, rule: str) -> None:
+    """BIP342: every signature check with a *non-empty signature* costs 50 of
+    the budget, whatever the public key is (an upgradable key type is charged
+    too) and whether or not the signature verifies; an empty signature costs
+    nothing. In op_checksig the charge is therefore guarded by the emptiness of
+    the signature and by nothing else: under a key-size test an upgradable key
+    is checked for free (Core: TAPSCRIPT_VALIDATION_WEIGHT not raised), under
+    `is not None` an empty signature is charged and a 1-of-40 multi_a leaf the
+    library built is refused."""
+    fi = ctx.func(f"{TAP}.op_checksig")
+    g = ctx.cfg(fi)
+    charges = [n for n in own_nodes(fi.node) if isinstance(n, ast.AugAssign) and isinstance(n.op, ast.Sub) and isinstance(n.target, ast.Name)
+               and n.target.id in fi.params() and isinstance(n.value, ast.Constant)]
+    rep.ob(rule, "op_checksig:one_charge", len(charges) == 1 and charges[0].value.value == 50, fi.where(), f"{len(charges)} budget charge(s) of {[c.value.value for c in charges]} (BIP342: 50 per non-empty signature)")
+    if len(charges) != 1:
+        return
+    ch = charges[0]
+    # the two operands, in the order they are popped: the key, then the signature
+    pops = [a for a in fi.node.body if isinstance(a, ast.Assign) and isinstance(a.value, ast.Call) and isinstance(a.value.func, ast.Attribute) and a.value.func.attr == "pop"
+            and isinstance(a.targets[0], ast.Name)]
+    if len(pops) < 2:
+        rep.unknown(rule, "op_checksig:operands", fi.where(), "the two pops were not found")
+        return
+    key, sig = pops[0].targets[0].id, pops[1].targets[0].id
+    facts = g.facts_at_ast(ch)
+    pos = [(t, pol) for t, pol in facts if pol]
+    on_sig = [t for t, pol in pos if _emptiness_subject(t) == sig]
+    rep.ob(rule, "op_checksig:charged_iff_nonempty", bool(on_sig), fi.where(ch),
+           f"the charge is under `{on_sig[0]}`" if on_sig else f"the charge is not under a test of the signature being non-empty (it holds under {sorted(str(t) for t, _ in pos)}): an empty signature is charged")
+    other = [str(t) for t, pol in pos if _emptiness_subject(t) != sig]
+    rep.ob(rule, "op_checksig:charged_whatever_the_key", not other, fi.where(ch),
+           "no other condition on the charge" if not other else f"the charge also needs {other}: a non-empty signature beside another key type is checked for free")
+    # the exhaustion test follows the charge, under the same guard
+    ex = [r for r in own_nodes(fi.node) if isinstance(r, ast.If) and any(isinstance(x, ast.Raise) for x in r.body) and isinstance(r.test, ast.Compare)
+          and isinstance(r.test.left, ast.Name) and r.test.left.id == ch.target.id]
+    okx = bool(ex) and isinstance(ex[0].test.ops[0], ast.Lt) and isinstance(ex[0].test.comparators[0], ast.Constant) and ex[0].test.comparators[0].value == 0 \
+        and ex[0].lineno > ch.lineno and g.facts_at_ast(ex[0].test) >= frozenset((t, True) for t in on_sig)
+    rep.ob(rule, "op_checksig:exhaustion", okx, fi.where(ex[0] if ex else ch), "refused when the budget falls below zero, right after the charge")
+    rep.floor(rule, 4)
+
+
+def rule_sigops_charge(ctx: Ctx, rep: Report) -> None:
+    """C08.sigops_charge: the tapscript sigops budget is charged for every non-empty signature and for nothing else (see sigops_charge)."""
+    sigops_charge(ctx, rep, "C08.sigops_charge")
+
+
+def _eval_bool(e: ast.AST, env: dict[str, object]):
+    """Evaluate a flag expression over a finite environment; raises KeyError on what it does not know."""
+    if isinstance(e, ast.BoolOp):
+        vals = [_eval_bool(v, env) for v in e.values]
+        return all(vals) if isinstance(e.op, ast.And) else any(vals)
+    if isinstance(e, ast.UnaryOp) and isinstance(e.op, ast.Not):
+        return not _eval_bool(e.operand, env)
+    if isinstance(e, ast.Constant):
+        return e.value
+    if isinstance(e, ast.Name):
+        return env[e.id]
+    if isinstance(e, (ast.Set, ast.Tuple, ast.List)):
+        return {_eval_bool(x, env) for x in e.elts}
+    if isinstance(e, ast.Compare) and len(e.ops) == 1:
+        op, r = e.ops[0], e.comparators[0]
+        if isinstance(op, (ast.In, ast.NotIn)) and isinstance(r, ast.Name) and r.id == "flags":
+            v = env["flag:" + ast.unparse(e.left)]
+            return v if isinstance(op, ast.In) else not v
+        a, b = _eval_bool(e.left, env), _eval_bool(r, env)
+        if isinstance(op, ast.Eq):
+            return a == b
+        if isinstance(op, ast.NotEq):
+            return a != b
+        if isinstance(op, ast.In):
+            return a in b
+        if isinstance(op, ast.NotIn):
+            return a not in b
+        if isinstance(op, ast.Is):
+            return a is b
+        if isinstance(op, ast.IsNot):
+            return a is not b
+        if a is None or b is None:
+            raise KeyError("ordering of None")
+        if isinstance(op, ast.Lt):
+            return a < b
+        if isinstance(op, ast.LtE):
+            return a <= b
+        if isinstance(op, ast.Gt):
+            return a > b
+        if isinstance(op, ast.GtE):
+            return a >= b
+    if isinstance(e, ast.BinOp) and isinstance(e.op, ast.BitAnd):
+        # `flags & ScriptFlag.X` as a truth value
+        for side in (e.left, e.right):
+            if isinstance(side, ast.Name) and side.id == "flags":
+                other = e.right if side is e.left else e.left
+                return env["flag:" + ast.unparse(other)]
+    raise KeyError(ast.unparse(e))
+
+
+def rule_minimalif(ctx: Ctx, rep: Report) -> None:
+    """C08.minimalif: the argument of OP_IF / OP_NOTIF must be empty or exactly
+    01 in tapscript always (BIP342, consensus) and in witness v0 under the
+    MINIMALIF policy flag; never in legacy scripts. The condition under which
+    each of the two op codes refuses is evaluated over every (segwit version,
+    flag) pair and compared with that table -- and so with its sibling."""
+    from sa.canon import expand
+    rule = "C08.minimalif"
+    for name in ("op_if", "op_notif"):
+        fi = ctx.func(f"{OPS}.{name}")
+        tests = [i for i in own_nodes(fi.node) if isinstance(i, ast.If) and any(isinstance(x, ast.Raise) for x in i.body) and "not in" in norm(i.test) and "stack[-1]" in norm(i.test)]
+        if len(tests) != 1:
+            rep.ob(rule, f"{name}:refusal", False, fi.where(), f"{len(tests)} refusals of a non-minimal argument")
+            continue
+        text = str(expand(fi, tests[0].test))
+        tree = ast.parse(text, mode="eval").body
+        conj = tree.values if isinstance(tree, ast.BoolOp) and isinstance(tree.op, ast.And) else [tree]
+        when = [c for c in conj if "stack[-1]" not in ast.unparse(c)]
+        shape = [c for c in conj if "stack[-1]" in ast.unparse(c)]
+        oks = len(shape) == 1 and ast.unparse(shape[0]).replace(" ", "") in ("stack[-1]notin{b'',b'\\x01'}", "stack[-1]notin{b'\\x01',b''}", "stack[-1]notin(b'',b'\\x01')")
+        rep.ob(rule, f"{name}:minimal_forms", oks, fi.where(tests[0]), f"refuses what is neither empty nor 01: `{ast.unparse(shape[0]) if shape else text}`")
+        bad = []
+        try:
+            for v in (None, -1, 0, 1, 2):
+                for fl in (False, True):
+                    env = {"segwit_version": v, "flag:ScriptFlag.MINIMALIF": fl}
+                    got = all(bool(_eval_bool(c, env)) for c in when)
+                    want = v == 1 or (v == 0 and fl)
+                    if got != want:
+                        bad.append(f"segwit_version={v}, MINIMALIF {'set' if fl else 'clear'}: enforced={got}, Core: {want}")
+        except KeyError as e:
+            rep.unknown(rule, f"{name}:table", fi.where(tests[0]), f"cannot evaluate {e} in `{text}`")
+            continue
+        rep.ob(rule, f"{name}:table", not bad, fi.where(tests[0]), "enforced in tapscript always, in witness v0 under MINIMALIF, never elsewhere (10 cases)" if not bad else "; ".join(bad[:3]))
+    rep.floor(rule, 4)
 
 
 # ---------------------------------------------------------------------------
@@ -636,6 +793,8 @@ def rule_foreign_errors(ctx: Ctx, rep: Report) -> None:
 
 
 RULES = [
+    ("C08.sigops_charge", rule_sigops_charge),
+    ("C08.minimalif", rule_minimalif),
     ("C08.foreign_errors", rule_foreign_errors),
     ("C08.core_order", rule_f13_f14),
     ("C08.params_forwarded", rule_params_forwarded_),
